@@ -176,7 +176,7 @@ class BirthDeath(Distribution):
         log_p = torch.log(q0)
         # condition on sampling at least one individual
         if self.survival:
-            log_p -= torch.log(1.0 - p[..., 0])
+            log_p -= torch.log(1.0 - p)
 
         # calculate l(x) with l(t)=1 iff t_{i-1} <= t < t_i
         x = self.origin - node_heights[..., taxa_shape[-1] :]
@@ -188,7 +188,7 @@ class BirthDeath(Distribution):
                 x,
                 self.origin,
             )
-        ).sum(-1)
+        ).sum(-1, keepdim=True)
 
         y = self.origin - tip_heights
         if serially_sampled:
@@ -200,5 +200,5 @@ class BirthDeath(Distribution):
                     y,
                     self.origin,
                 )
-            ).sum(-1)
+            ).sum(-1, keepdim=True)
         return log_p
